@@ -405,7 +405,8 @@ def run_case(case):
                     b2 = [(i + (i >= k), j + (j >= k), t, o) for i, j, t, o in bonds]
                     src.model = (rows2, b2)
                 elif name == "edit-delete":
-                    if any(k in (i, j) for i, j, _t, _o in bonds) or n < 2 or len(atoms[k].residue._atoms) < 2:
+                    if any(k in (b[0].index, b[1].index) for b in top.bonds) or any(k in (i, j) for i, j, _t, _o in bonds) or n < 2 \
+                            or len(atoms[k].residue._atoms) < 2:
                         continue   # dangling bonds / empty residues after a deletion are outside the statement
                     top.delete_atom_by_index(k)
                     rows2 = rows[:k] + rows[k + 1:]
